@@ -1289,17 +1289,38 @@ func (c *Compiler) compileReturn(node *ast.Return) error {
 	return nil
 }
 
+// isRepeatable reports whether evaluating the expression a second time is
+// indistinguishable from evaluating it once (a name or a plain literal).
+func isRepeatable(node ast.Node) bool {
+	switch node := node.(type) {
+	case *ast.Ident, *ast.Int, *ast.Float, *ast.Bool, *ast.Nil:
+		return true
+	case *ast.String:
+		return node.Template() == nil
+	}
+	return false
+}
+
 func (c *Compiler) compileSetItem(node *ast.Assign) error {
 	index := node.Index()
 
 	// Handle compound operators (*=, +=, etc.)
 	if node.Operator() != "=" {
+		// The container and index expressions must be evaluated only once if
+		// they can have side effects, e.g. x[next()] += 1. In that case they
+		// are kept on the stack for the store instead of being compiled again.
+		keep := !isRepeatable(index.Left()) || !isRepeatable(index.Index())
+
 		// 1. Load the current value: test[0]
 		if err := c.compile(index.Left()); err != nil {
 			return err
 		}
 		if err := c.compile(index.Index()); err != nil {
 			return err
+		}
+		if keep {
+			c.emit(op.Copy, 1)
+			c.emit(op.Copy, 1)
 		}
 		c.emit(op.BinarySubscr)
 
@@ -1320,6 +1341,14 @@ func (c *Compiler) compileSetItem(node *ast.Assign) error {
 			c.emit(op.BinaryOp, uint16(op.Divide))
 		default:
 			return fmt.Errorf("compile error: unsupported compound assignment operator: %s", node.Operator())
+		}
+		if keep {
+			// The stack holds [container, index, result] and StoreSubscr
+			// expects [result, container, index]
+			c.emit(op.Swap, 2)
+			c.emit(op.Swap, 1)
+			c.emit(op.StoreSubscr)
+			return nil
 		}
 	} else {
 		// Simple assignment
@@ -1406,9 +1435,16 @@ func (c *Compiler) compileAssign(node *ast.Assign) error {
 func (c *Compiler) compileSetAttr(node *ast.SetAttr) error {
 	// Handle compound operators (*=, +=, etc.)
 	if node.Token().Type != token.ASSIGN {
+		// As in compileSetItem: evaluate the object expression only once if
+		// it can have side effects
+		keep := !isRepeatable(node.Object())
+
 		// 1. Load the current value
 		if err := c.compile(node.Object()); err != nil {
 			return err
+		}
+		if keep {
+			c.emit(op.Copy, 0)
 		}
 		idx := c.current.addName(node.Name())
 		c.emit(op.LoadAttr, idx)
@@ -1430,6 +1466,12 @@ func (c *Compiler) compileSetAttr(node *ast.SetAttr) error {
 			c.emit(op.BinaryOp, uint16(op.Divide))
 		default:
 			return fmt.Errorf("compile error: unsupported compound assignment operator: %s", node.Token().Literal)
+		}
+		if keep {
+			// The stack holds [object, result] and StoreAttr expects [result, object]
+			c.emit(op.Swap, 1)
+			c.emit(op.StoreAttr, idx)
+			return nil
 		}
 	} else {
 		// Simple assignment
